@@ -47,6 +47,12 @@ func c05Configs(name string) []configCase {
 		c := mk(h2, gr, false, false)
 		c.Codec = conformancev1.Codec_CODEC_JSON // not supported by the gRPC peers
 		return []configCase{mk(h1, cn, false, false), mk(h1, gw, false, false), mk(h2, gr, false, false), mk(h2, cn, false, false), c}
+	case "C1":
+		return []configCase{mk(h1, cn, false, false)}
+	case "C2":
+		return []configCase{mk(h1, cn, false, false), mk(h2, cn, false, false)}
+	case "C3":
+		return []configCase{mk(h1, cn, false, false), mk(h2, cn, false, false), mk(h2, gr, false, false)}
 	case "T":
 		return []configCase{mk(h1, cn, false, false), mk(h1, cn, true, false), mk(h2, gr, true, false), mk(h2, gr, true, true)}
 	}
